@@ -101,7 +101,7 @@ def _compile(text):
 
 def call_text(cat, tag, pos, named, ctx):
     parts = [print_value(v) for v in pos] + [f"{k}={print_value(v)}" for k, v in named]
-    return f"%{cat}.{tag}(" + ", ".join(parts) + ")" + ("{ctx}" if ctx else "")
+    return f"%{cat}.{tag}(" + ", ".join(parts) + ")" + ("{}" if ctx == "empty" else "{ctx}" if ctx else "")
 
 
 def cand(ann):
@@ -166,6 +166,8 @@ def shapes_for(sig, baseline, optvals):
     base_named = list(baseline.items())
     shapes.append(("all-named", [], base_named, base_ctx))
     shapes.append(("flip-context", [], base_named, not base_ctx))
+    # a context that is present but has no elements is still a context (and "|%Tag()" likewise)
+    shapes.append(("empty-context", [], base_named, "empty"))
     # prefixes by position: the first i positional parameters must all have values
     for i in range(1, len(pos_params) + 1):
         prefix = pos_params[:i]
@@ -223,7 +225,7 @@ def _enc_sig(printed):
 
 def lines_shapes_from_obs(obs):
     sig = _enc_sig(obs["sig"])
-    return [f"bind {sig} {s['nargs']} {enc_strs(s['kws'])} {enc_bool(s['ctx'])}" for s in obs["shapes"]]
+    return [f"bind {sig} {s['nargs']} {enc_strs(s['kws'])} {enc_bool(bool(s['ctx']))}" for s in obs["shapes"]]
 
 
 def _value_rejection(outcome):
@@ -252,6 +254,10 @@ def oracle_shapes(case, obs):
             return f"more positional arguments than documented accepted: {s['text']!r}"
         if label == "flip-context" and ok and obs["sig"]["rc"] is not None:
             return f"context rule of {cat}.{tag} (require_context={obs['sig']['rc']}) not enforced: {s['text']!r}"
+        if label == "empty-context" and ok and obs["sig"]["rc"] is False:
+            return f"{cat}.{tag} is documented without a context but accepts an empty one: {s['text']!r}"
+        if label == "empty-context" and not ok and obs["sig"]["rc"] is not False:
+            return f"{cat}.{tag} takes a context but rejects the empty one: {s['text']!r}: {out}"
         if label in ("all-named",) and not ok:
             return f"baseline call rejected on re-compile: {s['text']!r}: {out}"
         if (label.startswith("positional-") or label.startswith("optional-named-")) and not ok and not _value_rejection(out):
@@ -307,14 +313,27 @@ def classify_shapes(case, obs):
 def gen_cli(rng, n, tier):
     cases = []
     for c in gen_shapes(rng, n, tier):
-        cases.append({"cat": c["cat"], "tag": c["tag"]})
+        cases.append({"cat": c["cat"], "tag": c["tag"], "form": "undeclared"})
+        cases.append({"cat": c["cat"], "tag": c["tag"], "form": rng.choice(["empty-context", "empty-pipe"]), "help": c["help"]})
     if tier == "quick":
         cases = [c for c in cases if rng.random() < 0.4]
     return cases
 
 
 def impl_cli(case):
-    text = f"%{case['cat']}.{case['tag']}(zz_undeclared=1)" + "{x}" * 0
+    form = case.get("form", "undeclared")
+    if form == "undeclared":
+        text = f"%{case['cat']}.{case['tag']}(zz_undeclared=1)"
+    else:
+        # a tag documented without context marker, called with its baseline arguments and an empty context
+        sig = parse_help_signature(case["help"])
+        if sig is None or sig["rc"] is not False or any(p["kind"].startswith("unsupported") for p in sig["params"]):
+            return {"skip": True}
+        baseline = find_baseline(case["cat"], case["tag"], sig)
+        if baseline is None:
+            return {"skip": True}
+        call = call_text(case["cat"], case["tag"], [], list(baseline.items()), False)
+        text = call + "{}" if form == "empty-context" else "|" + call
     with common.Sandbox({"in": None, "in/a.txt": "A", "in/b": "B"}) as root:
         before = common.snapshot(root, with_ino=True)
         o, e, rc = common.run_cli(EXTRA + ["pre" + text, str(root / "in")])
@@ -322,6 +341,11 @@ def impl_cli(case):
 
 
 def oracle_cli(case, obs):
+    if obs.get("skip"):
+        return None
+    if obs["rc"] != 3 and case.get("form", "undeclared") != "undeclared":
+        return (f"{case['cat']}.{case['tag']} is documented without a context but the {case['form']} form gives exit {obs['rc']} "
+                f"(expected 3): {obs['err']}")
     if obs["rc"] != 3:
         return f"undeclared argument to {case['cat']}.{case['tag']} gives exit {obs['rc']} (expected 3): {obs['err']}"
     if not obs["unchanged"]:
